@@ -144,4 +144,141 @@ theorem hostKey_ne_clKey : hostKey ≠ clKey := by decide
 theorem hostKey_ne_teKey : hostKey ≠ teKey := by decide
 theorem clKey_ne_teKey : clKey ≠ teKey := by decide
 
+theorem clKey_ne_hostKey : clKey ≠ hostKey := by decide
+theorem teKey_ne_hostKey : teKey ≠ hostKey := by decide
+theorem teKey_ne_clKey : teKey ≠ clKey := by decide
+
+theorem mem_setKey (h : List KV) (k : Bytes) (vs : Option (List Bytes)) (kv : KV) :
+    kv ∈ setKey h k vs ↔
+      match vs with
+      | none => kv ∈ h
+      | some vs => (kv ∈ h ∧ kv.1 ≠ k) ∨ (kv.1 = k ∧ kv.2 ∈ vs) := by
+  cases vs with
+  | none => simp [setKey]
+  | some vs => exact mem_setKey_some h k vs kv
+
+theorem headerMap_eq (m : Msg) :
+    headerMap m = setKey (setKey (setKey m.hdr hostKey (fieldOf m hostKey)) clKey (fieldOf m clKey))
+      teKey (fieldOf m teKey) := by
+  have h1 : (clKey == hostKey) = false := by decide
+  have h2 : (teKey == hostKey) = false := by decide
+  have h3 : (teKey == clKey) = false := by decide
+  simp [headerMap, fieldOf, h1, h2, h3]
+
+/-- Membership in `Header.Map`: a key with a struct field behind it lists the field's values,
+any other key the map's own lines. -/
+theorem mem_headerMap (m : Msg) (kv : KV) :
+    kv ∈ headerMap m ↔
+      match fieldOf m kv.1 with
+      | some vs => kv.2 ∈ vs
+      | none => kv ∈ m.hdr := by
+  rw [headerMap_eq]
+  obtain ⟨k, v⟩ := kv
+  simp only [mem_setKey]
+  by_cases hk1 : k = hostKey
+  · subst hk1
+    have e2 : fieldOf m clKey = fieldOf m clKey := rfl
+    cases hH : fieldOf m hostKey <;> cases hC : fieldOf m clKey <;> cases hT : fieldOf m teKey <;>
+      simp [hostKey_ne_clKey, hostKey_ne_teKey]
+  · by_cases hk2 : k = clKey
+    · subst hk2
+      cases hH : fieldOf m hostKey <;> cases hC : fieldOf m clKey <;> cases hT : fieldOf m teKey <;>
+        simp [clKey_ne_hostKey, clKey_ne_teKey]
+    · by_cases hk3 : k = teKey
+      · subst hk3
+        cases hH : fieldOf m hostKey <;> cases hC : fieldOf m clKey <;> cases hT : fieldOf m teKey <;>
+          simp [teKey_ne_hostKey, teKey_ne_clKey]
+      · have hN : fieldOf m k = none := by
+          simp [fieldOf, hk1, hk2, hk3]
+        cases hH : fieldOf m hostKey <;> cases hC : fieldOf m clKey <;> cases hT : fieldOf m teKey <;>
+          simp [hN, hk1, hk2, hk3]
+
+theorem mem_headerMap_of_field (m : Msg) (k : Bytes) (vs : List Bytes) (v : Bytes)
+    (hf : fieldOf m k = some vs) : (k, v) ∈ headerMap m ↔ v ∈ vs := by
+  rw [mem_headerMap]; simp [hf]
+
+theorem mem_headerMap_absent (m : Msg) (k v : Bytes) (hf : fieldOf m k = none) :
+    (k, v) ∈ headerMap m ↔ (k, v) ∈ m.hdr := by
+  rw [mem_headerMap]; simp [hf]
+
+theorem mem_headerMap_ordinary (m : Msg) (kv : KV)
+    (hk : kv.1 ≠ clKey ∧ kv.1 ≠ teKey ∧ (m.isReq = true → kv.1 ≠ hostKey)) :
+    kv ∈ headerMap m ↔ kv ∈ m.hdr := by
+  rw [mem_headerMap]
+  have : fieldOf m kv.1 = none := by
+    obtain ⟨h1, h2, h3⟩ := hk
+    unfold fieldOf
+    by_cases hh : kv.1 = hostKey
+    · cases hr : m.isReq
+      · simp [hh]
+      · exact absurd hh (h3 hr)
+    · simp [hh, h1, h2]
+  simp [this]
+
+theorem mem_wireFields (m : Msg) (kv : KV) :
+    kv ∈ wireFields m ↔
+      (m.isReq = true ∧ m.host ≠ [] ∧ kv = (hostKey, m.host)) ∨
+      (m.te ≠ [] ∧ kv = (teKey, join m.te (strBytes ", "))) ∨
+      (isChunked m.te = false ∧ 0 ≤ m.cl ∧ kv = (clKey, itoa m.cl)) ∨
+      (kv ∈ m.hdr ∧ (m.isReq = true → kv.1 ≠ hostKey) ∧ kv.1 ≠ clKey ∧ kv.1 ≠ teKey) := by
+  unfold wireFields
+  cases hr : m.isReq <;> cases hh : m.host <;> cases ht : m.te <;> cases hc : isChunked m.te <;>
+    by_cases hcl : 0 ≤ m.cl <;>
+    simp_all [mem_sortKV, List.mem_filter]
+
+theorem mem_wireFields_ordinary (m : Msg) (kv : KV)
+    (hk : kv.1 ≠ clKey ∧ kv.1 ≠ teKey ∧ (m.isReq = true → kv.1 ≠ hostKey)) :
+    kv ∈ wireFields m ↔ kv ∈ m.hdr := by
+  rw [mem_wireFields]
+  obtain ⟨h1, h2, h3⟩ := hk
+  constructor
+  · rintro (⟨hr, _, rfl⟩ | ⟨_, rfl⟩ | ⟨_, _, rfl⟩ | ⟨h, _⟩)
+    · exact absurd rfl (h3 hr)
+    · exact absurd rfl h2
+    · exact absurd rfl h1
+    · exact h
+  · intro h; exact Or.inr (Or.inr (Or.inr ⟨h, h3, h1, h2⟩))
+
+theorem join_singleton (v sep : Bytes) : join [v] sep = v := by
+  simp [join, List.intercalate]
+
+theorem fieldOf_some (m : Msg) (k : Bytes) (vs : List Bytes) (hf : fieldOf m k = some vs) :
+    (k = hostKey ∧ m.isReq = true ∧ m.host ≠ [] ∧ vs = [m.host]) ∨
+    (k = clKey ∧ 0 < m.cl ∧ vs = [itoa m.cl]) ∨
+    (k = teKey ∧ m.te ≠ [] ∧ vs = m.te) := by
+  unfold fieldOf at hf
+  split at hf
+  · rename_i h1
+    split at hf
+    · rename_i hc
+      simp only [Bool.and_eq_true, Bool.not_eq_true', List.isEmpty_eq_false_iff] at hc
+      simp at hf
+      exact Or.inl ⟨by simpa using h1, hc.1, hc.2, hf.symm⟩
+    · simp at hf
+  · split at hf
+    · rename_i h2
+      split at hf
+      · rename_i hc
+        simp at hf
+        exact Or.inr (Or.inl ⟨by simpa using h2, hc, hf.symm⟩)
+      · simp at hf
+    · split at hf
+      · rename_i h3
+        split at hf
+        · simp at hf
+        · rename_i hc
+          simp at hf
+          exact Or.inr (Or.inr ⟨by simpa using h3, by simpa using hc, hf.symm⟩)
+      · simp at hf
+
+theorem mem_wireFields_of_field (m : Msg) (k : Bytes) (vs : List Bytes) (v : Bytes)
+    (hf : fieldOf m k = some vs) (hcl : k = clKey → isChunked m.te = false) :
+    (k, v) ∈ wireFields m ↔ v = join vs (strBytes ", ") := by
+  rw [mem_wireFields]
+  rcases fieldOf_some m k vs hf with ⟨rfl, hr, hh, rfl⟩ | ⟨rfl, hc, rfl⟩ | ⟨rfl, ht, rfl⟩
+  · simp [join_singleton, hr, hh, hostKey_ne_clKey, hostKey_ne_teKey]
+  · have : 0 ≤ m.cl := by omega
+    simp [join_singleton, hcl rfl, this, clKey_ne_hostKey, clKey_ne_teKey]
+  · simp [ht, teKey_ne_hostKey, teKey_ne_clKey]
+
 end Martian.Har
